@@ -72,8 +72,10 @@ func (u *vrRun) epicInput() []byte {
 
 // hvfValid: the hop validation field of position pos equals the first four bytes of the ideal
 // EPIC MAC keyed with the full hop-field MAC of hop h (accumulator beta as in C01).
-func (u *vrRun) hvfValid(pos int, beta uint16) bool {
-	sigma := verif.UF("hfmac", 16, u.rf.macInput(u.h, beta))
+func (u *vrRun) hvfValid(pos int, beta uint16) bool { return u.hvfValidAt(u.h, pos, beta) }
+
+func (u *vrRun) hvfValidAt(hop, pos int, beta uint16) bool {
+	sigma := verif.UF("hfmac", 16, u.rf.macInput(hop, beta))
 	full := verif.UF("epic", 16, sigma, u.epicInput())
 	hvf := u.epicHVF(pos)
 	var diff byte
@@ -111,6 +113,8 @@ func c13Run(want int) *vrRun {
 		verif.Assume(atEnd)
 	case 0:
 		verif.Assume(!atEnd)
+	case 2:
+		verif.Assume(cur == u.c.nHop-1) // twins: last hop field only
 	}
 	u.ing = vrIngress(u.r)
 	u.pkt.Link = u.r.links[u.ing]
@@ -130,7 +134,11 @@ func c13Run(want int) *vrRun {
 
 // c13End: clauses for a packet received at its penultimate / last hop field.
 func c13End(twin bool) {
-	u := c13Run(1)
+	want := 1
+	if twin {
+		want = 2
+	}
+	u := c13Run(want)
 	rf := &u.rf
 	pos := u.c13Pos()
 	if u.disp != pForward {
@@ -167,7 +175,11 @@ func c13End(twin bool) {
 // penultimate nor last the two runs must agree in everything observable; at the penultimate / last
 // hop field EPIC may only be stricter (discard where SCION forwards).
 func c13Diff(twin bool) {
-	u := c13Run(-1)
+	want := -1
+	if twin {
+		want = 2
+	}
+	u := c13Run(want)
 	c := u.c
 	pos := u.c13Pos()
 	egE, reqE := u.pkt.egress, u.pkt.slowPathRequest
@@ -252,6 +264,27 @@ func c13Diff(twin bool) {
 	verif.Assert("end-hop-differs-from-scion-only-by-discarding", sameDisp || (dispS == pForward && u.disp == pDiscard))
 	verif.Assert("end-hop-same-egress-and-scmp-request-as-scion", sameOut)
 	verif.Assert("end-hop-same-bytes-as-scion", !sameDisp || sameBytes)
+}
+
+// VerifC13XoverProbe is NOT part of the registered claim (tier "probe" only, see notes/C13.md,
+// observation 1). Two-segment class whose last segment has two hop fields; the packet is received
+// with CurrHF = NumHops-3 (last hop field of the first segment), this router performs the
+// cross-over onto the penultimate hop field and the egress processing of that hop field. Reading
+// "at its penultimate hop" per AS rather than per received pointer, the PHVF would have to be
+// valid for that hop field.
+func VerifC13XoverProbe() {
+	u := c13Run(0)
+	c := u.c
+	if u.disp != pForward || u.h != c.nHop-3 || !u.xoverPos(u.h) {
+		return
+	}
+	newHF := int(verif.Concrete(uint64(u.pkt.RawPacket[c.metaOff] & 63)))
+	if newHF != c.nHop-1 {
+		return
+	}
+	verif.Cover("xover-onto-penultimate-forwarded")
+	i := u.rf.infOf(u.h + 1)
+	verif.Assert("xover-onto-penultimate-needs-valid-phvf", u.hvfValidAt(u.h+1, 1, u.rf.segID(i)))
 }
 
 // VerifC13Diff: differential against the embedded SCION path, all positions.
